@@ -28,18 +28,15 @@ NOT_THEOREMS = ['record-level premise of Props.C06.main (every typed record pars
 EXHAUSTIVE = {"quick": False, "thorough": False}
 
 
-def rw(RF, text):
-    f = RF.read(text)
-    buf = StringIO()
-    f.write(buf)
-    return buf.getvalue()
+def rw(RF, text, io=None):
+    return fsup.write_text(fsup.read_text(RF, text, io), io)
 
 
 def run_impl(case):
     try:
-        RF, classes = fsup.mk_register_file(case["regs"])
-        y = rw(RF, codec.dec_str(case["x"]))
-        y2 = rw(RF, y)
+        RF, classes = fsup.mk_register_file(case["regs"], io=case.get("io"))
+        y = rw(RF, codec.dec_str(case["x"]), case.get("io"))
+        y2 = rw(RF, y, case.get("io"))
         return {"y": codec.enc_str(y), "y2": codec.enc_str(y2)}
     except Exception as e:
         return codec.enc_exc(e)
@@ -204,7 +201,11 @@ def random_case(rng):
     if x and rng.random() < 0.3:
         x = x[:-1]
         perts.add("no_final_newline")
-    return {"regs": regs, "x": codec.enc_str(x), "perts": sorted(perts)}
+    case = {"regs": regs, "x": codec.enc_str(x), "perts": sorted(perts)}
+    io = fsup.io_of(rng, [x])
+    if io:
+        case["io"] = io  # read from / written to paths on disk, in the class's declared encoding
+    return case
 
 
 def written_case(rng):
@@ -233,7 +234,7 @@ def corpus_cases():
 
 def chunks(tier, seed):
     ch = [{"kind": "corpus"}]
-    nrand = {"quick": 4000, "thorough": 100000}.get(tier, 12000)
+    nrand = {"quick": 4000, "thorough": 400000}.get(tier, 12000)
     per = max(1, nrand // 16)
     for i in range(16):
         ch.append({"kind": "random", "seed": seed * 1000 + i, "n": per, "written": i % 4 == 3})
